@@ -401,6 +401,21 @@ func LoadReplay(path string) (*Violation, error) {
 	return &v, nil
 }
 
+// Pinned returns the counterexamples kept under findings/<ID>/ (replay files of
+// defects found earlier, fixed or known): checks whose quick bounds do not reach
+// them run them first, so a returning defect is reported by every tier.
+func (r *Run) Pinned() []*Violation {
+	files, _ := filepath.Glob(filepath.Join(r.Root, "findings", r.ID, "*.json"))
+	sort.Strings(files)
+	var out []*Violation
+	for _, f := range files {
+		if v, err := LoadReplay(f); err == nil && v.Input != nil {
+			out = append(out, v)
+		}
+	}
+	return out
+}
+
 // Catch runs f and returns the panic message ("" if none).
 func Catch(f func()) (msg string) {
 	defer func() {
